@@ -5,6 +5,7 @@ CONSTANTS
   FIX_REPOINT = TRUE
   OPS = FALSE
   MASK_ADD = TRUE
+  MAXQ = 0
   ALIAS_OPS = FALSE
 INVARIANTS NoPanic TablesAgree MarksBacked ListOK
 CHECK_DEADLOCK FALSE
